@@ -612,3 +612,29 @@ Theorem c09_code_rtnext_unknown_ns_skip : forall m rho tr idx sh nnd rns F,
     rho' "iterator->_next_bitmap" = rho "iterator->_next_bitmap" /\ rho' "iterator->_reset_on_ext" = rho "iterator->_reset_on_ext".
 Proof. exact rtnext_code_unknown_ns_skip. Qed.
 Print Assumptions c09_code_rtnext_unknown_ns_skip.
+
+(* the pass over bit 30 (vendor namespace, none registered): the six-octet vendor header LOADED inside the buffer, find_ns (inlined)
+   clears the namespace, _next_ns_data behind the vendor data, both bounds tests, this_arg_index = 30 reported at the 2-aligned offset
+   (Proofs/CodeRadiotapNextVendor.v).  With it EVERY kind of pass of the while (1) loop has a whole-pass theorem for all values. *)
+From LW Require Import Proofs.CodeRadiotapNextVendor.
+Theorem c09_code_rtnext_vendor_pass : forall m rho tr idx sh h buf a mx ns0 F,
+  holds m h buf -> wfbytes buf ->
+  rho "iterator->_arg_index" = idx -> rho "iterator->_bitmap_shifter" = sh -> rho "iterator->_arg" = h + a ->
+  rho "iterator->_rtheader" = h -> rho "iterator->_max_length" = mx -> rho "iterator->_vns" = 0 ->
+  rho "iterator->current_namespace" = ns0 ->
+  0 <= idx < 2 ^ 31 - 1 -> idx mod 32 = c_IEEE80211_RADIOTAP_VENDOR_NAMESPACE -> 0 <= sh < 2 ^ 32 -> Z.odd sh = true ->
+  0 <= h -> 0 <= a -> h + a + 70000 < 2 ^ 62 -> 0 <= mx < 2 ^ 31 -> mx <= zlen buf -> 0 <= ns0 < 2 ^ 64 ->
+  let a2 := if a mod 2 =? 0 then a else a + (2 - a mod 2) in let vl := le16 buf (a2 + 4) in
+  if mx <? a2 + 6 then
+    exists rho', execg (80 + F) m rho tr body_ieee80211_radiotap_iterator_next = GReturned (Some (- EINVAL)) rho' tr
+  else if mx <? a2 + (6 + vl) then
+    exists rho' tr', execg (80 + F) m rho tr body_ieee80211_radiotap_iterator_next = GReturned (Some (- EINVAL)) rho' tr'
+  else
+    exists rho' tr', execg (80 + F) m rho tr body_ieee80211_radiotap_iterator_next = GReturned (Some 0) rho' tr' /\
+      rho' "iterator->this_arg_index" = c_IEEE80211_RADIOTAP_VENDOR_NAMESPACE /\ rho' "iterator->this_arg" = h + a2 /\
+      rho' "iterator->this_arg_size" = 6 + vl /\ rho' "iterator->_arg" = h + (a2 + (6 + vl)) /\
+      rho' "iterator->_next_ns_data" = h + (a2 + 6 + vl) /\ rho' "iterator->current_namespace" = 0 /\
+      rho' "iterator->_reset_on_ext" = 1 /\ rho' "iterator->is_radiotap_ns" = 0 /\
+      rho' "iterator->_bitmap_shifter" = Z.shiftr sh 1 /\ rho' "iterator->_arg_index" = idx + 1.
+Proof. exact rtnext_code_vendor_pass. Qed.
+Print Assumptions c09_code_rtnext_vendor_pass.
